@@ -8,7 +8,6 @@ from emu_sv.lindblad_operator import RydbergLindbladian
 
 from pulser.backend import Results, Observable, State, EmulationConfig
 from emu_base import SequenceData, get_max_rss
-from emu_base.pulser_adapter import HamiltonianType
 
 from emu_sv.state_vector import StateVector
 from emu_sv.density_matrix_state import DensityMatrix
@@ -65,11 +64,6 @@ class SVBackendImpl:
     well_prepared_qubits_filter: typing.Optional[torch.Tensor]
 
     def __init__(self, config: SVConfig, data: SequenceData):
-        if data.hamiltonian_type != HamiltonianType.Rydberg or data.dim != 2:
-            raise NotImplementedError(
-                "emu-sv only supports the 2-level ground-rydberg basis, not "
-                f"{data.hamiltonian_type.name} with eigenstates {data.eigenstates}"
-            )
         self.pulser_lindblads = data.lindblad_ops
         stepper: type[EvolveStateVector] | type[EvolveDensityMatrix]
         state_type: type[StateVector] | type[DensityMatrix]
